@@ -205,7 +205,11 @@ func (g *Gen) genLocalDecl() Stmt {
 		}
 	}
 	t := g.randValueType()
-	switch r.Pick([]int{5, 4, 1}) {
+	w := []int{5, 4, 1}
+	if g.fx.f != nil && g.fx.f.Stage == "" && !g.fx.entry && !g.on("helper.locals") {
+		w = []int{0, 4, 1} // helpers without var locals (C13 compares the inliner on such programs exactly)
+	}
+	switch r.Pick(w) {
 	case 0:
 		v := &Var{Name: g.name("v"), Kind: VLocal, Ty: t, Space: "function", HasType: r.Bool()}
 		var init Expr
@@ -594,7 +598,9 @@ func (g *Gen) genStmts(n int) []Stmt {
 		if i == 0 && forced != 0 {
 			switch forced {
 			case 'L':
-				ss = g.genLoop(max(2, n/2))
+				if g.fx.entry || g.on("helper.loops") {
+					ss = g.genLoop(max(2, n/2))
+				}
 			case 'S', 's':
 				g.singleSwitch = forced == 's'
 				s = g.genSwitch(max(2, n))
@@ -642,7 +648,7 @@ func (g *Gen) genStmts(n int) []Stmt {
 				i += 1
 			}
 		case 4:
-			if n > 1 {
+			if n > 1 && (g.fx.entry || g.on("helper.loops")) {
 				ss = g.genLoop(max(1, n/2))
 				i += 1
 			}
